@@ -605,7 +605,9 @@ func checkRaw(c *initCase, st *stats, enc []byte, n, described int) *harness.Fai
 	return nil
 }
 
-func be32(b []byte) uint32 { return uint32(b[0])<<24 | uint32(b[1])<<16 | uint32(b[2])<<8 | uint32(b[3]) }
+func be32(b []byte) uint32 {
+	return uint32(b[0])<<24 | uint32(b[1])<<16 | uint32(b[2])<<8 | uint32(b[3])
+}
 
 func checkRawEntry(c *initCase, st *stats, e *rawEntry, t *fragbuild.PTrack, op *trackOp) *harness.Fail {
 	bad := func(area, rel, format string, a ...interface{}) *harness.Fail {
